@@ -128,9 +128,6 @@ Fixpoint look1 {V} (k : Z) (t : list (Z * V)) : option V :=
   | [] => None
   | (a, b) :: r => if Z.eqb a k then Some b else look1 k r
   end.
-Definition json_rt_t (T : tables) (n : Z) : option Z :=
-  match look1 n (t_jrt T) with Some o => o | None => None end.
-
 (* an integer literal that is not in the round-trip table is an ORACLE MISS: it is turned
    into the one input on which the model panics, so that it counts as a disagreement whenever
    the model consults the status entry *)
